@@ -92,6 +92,10 @@ def check(case):
             raise v
         # known open finding K3: reported at the end, so that it does not hide the remaining sub-checks of this case
         deferred = Violation('copy-differs|shared-reshuffle-object', v.detail)
+    np.random.seed(11)
+    C3 = epochs(fresh(node).copy().copy().copy(), 5)
+    if A != C3 and deferred is None:
+        raise Violation('copy-differs|copy-of-copy', f'{desc}\nbuild epochs   {A}\ncopy().copy().copy() epochs  {C3}')
     m = ev(node)
     if case.get('prefetch'):
         w, b = case['prefetch']
